@@ -10,6 +10,7 @@
 //   load2 <ty> <hex1> <hex2>    -> one archive object: str(hex1), load (outcome ignored), str(hex2), load -> as `load`
 //   crt / zrt <ty> <value>      -> cache_interface / session_interface store_data then fetch_data (serializable classes): "ok <value tokens>"
 //   zsv <ty> <value>            -> session store_data, save(), next request: load(), fetch_data: "ok <value>" | "toolong" (save_data limit)
+//   cmp <ty> <value> <value>    -> "1" / "0": operator< of the C++ type (key types only)
 //   wr    <hex> <hex>...        -> write_chunk of each word; hex of the archive
 //   load+ rt+ sload+ srt+       -> the same, but the object loaded into is pre-populated with junk (load must replace it)
 //
@@ -336,6 +337,18 @@ struct Junk {
 	template<typename A,typename B> static void j(rec2<A,B> &v) { j(v.a); j(v.b); }
 };
 
+// ---- operator< of key types, asked directly (cmp)
+template<typename T,typename E=void> struct Keyable { static const bool value=false; };
+template<typename T> struct Keyable<T,typename std::enable_if<std::is_arithmetic<T>::value && std::is_unsigned<T>::value>::type> { static const bool value=true; };
+template<> struct Keyable<std::string> { static const bool value=true; };
+template<typename T> struct Keyable<std::vector<T> > { static const bool value=Keyable<T>::value; };
+template<typename T> struct Keyable<std::list<T> > { static const bool value=Keyable<T>::value; };
+template<typename T> struct Keyable<std::set<T> > { static const bool value=Keyable<T>::value; };
+template<typename T> struct Keyable<std::multiset<T> > { static const bool value=Keyable<T>::value; };
+template<typename K,typename V> struct Keyable<std::map<K,V> > { static const bool value=Keyable<K>::value && Keyable<V>::value; };
+template<typename K,typename V> struct Keyable<std::multimap<K,V> > { static const bool value=Keyable<K>::value && Keyable<V>::value; };
+template<typename A,typename B> struct Keyable<std::pair<A,B> > { static const bool value=Keyable<A>::value && Keyable<B>::value; };
+
 // ---- ASan: make the archive's buffer "heap exact"
 struct Poison {
 	char const *p; size_t n;
@@ -367,6 +380,7 @@ struct Ops {
 	std::string (*session)(Tok &);
 	std::string (*load2)(std::string const &,std::string const &);
 	std::string (*session_saved)(Tok &);
+	std::string (*cmp)(Tok &);
 };
 
 template<typename T> std::string do_save(Tok &t)
@@ -567,16 +581,26 @@ template<typename T> std::string do_session_saved(Tok &t)
 	return out;
 }
 
+template<typename T> std::string do_cmp(Tok &t)
+{
+	if constexpr (Keyable<T>::value) {
+		T a=T(),b=T();
+		parse(t,a); parse(t,b);
+		return a<b ? "1" : "0";
+	}
+	else return "bad-op";
+}
+
 static std::map<std::string,Ops> registry;
 
 template<typename T> void reg()
 {
-	Ops o={ do_save<T>, do_load<T>, do_rt<T>, 0, 0, 0, 0, 0, do_load2<T>, 0 };
+	Ops o={ do_save<T>, do_load<T>, do_rt<T>, 0, 0, 0, 0, 0, do_load2<T>, 0, do_cmp<T> };
 	registry[TN<T>::name()]=o;
 }
 template<typename T> void regs()
 {
-	Ops o={ do_save<T>, do_load<T>, do_rt<T>, do_ssave<T>, do_sload<T>, do_srt<T>, do_cache<T>, do_session<T>, do_load2<T>, do_session_saved<T> };
+	Ops o={ do_save<T>, do_load<T>, do_rt<T>, do_ssave<T>, do_sload<T>, do_srt<T>, do_cache<T>, do_session<T>, do_load2<T>, do_session_saved<T>, do_cmp<T> };
 	registry[TN<T>::name()]=o;
 }
 
@@ -605,6 +629,8 @@ static void init()
 	reg<map<std::multiset<u1>,string> >();
 	regs<box<string[3]> >(); regs<box<u4[3]> >(); regs<box<vector<string>[2]> >(); regs<rec2<u2[4],set<string>[2]> >();
 	regs<box<map<string,u4>[1]> >();
+	reg<set<vector<u2> > >(); reg<map<vector<u4>,u1> >(); reg<set<vector<u8> > >(); reg<set<set<u2> > >(); reg<set<map<u1,string> > >(); reg<set<list<u4> > >();
+	reg<set<std::multiset<string> > >(); reg<set<pair<string,vector<u2> > > >();
 	typedef cppcms::json::value jv;
 	reg<jv>(); reg<vector<jv> >(); reg<map<string,jv> >(); reg<shared_ptr<jv> >(); reg<pair<u4,jv> >(); regs<box<jv> >(); regs<rec2<jv,string> >();
 	reg<booster::hold_ptr<string> >(); reg<booster::hold_ptr<vector<u4> > >(); regs<box<booster::hold_ptr<map<string,u2> > > >();
@@ -678,6 +704,7 @@ static std::string run(std::vector<std::string> const &w)
 	if(o2=="srt") return o.srt ? o.srt(t) : "bad-op";
 	if(o2=="crt") return o.cache ? o.cache(t) : "bad-op";        // cache_interface::store_data / fetch_data
 	if(o2=="zrt") return o.session ? o.session(t) : "bad-op";    // session_interface::store_data / fetch_data
+	if(o2=="cmp") return o.cmp(t);                               // operator< of two values of a key type
 	if(o2=="zsv") return o.session_saved ? o.session_saved(t) : "bad-op";   // ... with save() and a new request in between
 	if(o2=="load2") {
 		if(w.size()!=4) return "bad-op";
